@@ -34,6 +34,7 @@ def run_worker(ob, scratch):
     spec_path = os.path.join(scratch, tag + ".spec.json")
     out_path = os.path.join(scratch, tag + ".out.json")
     wdir = os.path.join(scratch, tag + ".d")
+    shutil.rmtree(wdir, ignore_errors=True)      # a killed earlier attempt may have left files behind
     os.makedirs(wdir, exist_ok=True)
     spec = dict(ob)
     spec["params"] = dict(ob.get("params", {}))
@@ -50,6 +51,7 @@ def run_worker(ob, scratch):
                            timeout=budget * 2.0 + 120)
         stderr = p.stderr[-2000:]
     except subprocess.TimeoutExpired:
+        shutil.rmtree(wdir, ignore_errors=True)
         return {"name": ob["name"], "status": "INCONCLUSIVE", "reason": "worker wall-clock timeout",
                 "paths": 0, "queries": 0, "solver_s": 0.0, "cex": [], "wall_s": time.time() - t}
     try:
